@@ -355,7 +355,11 @@ def _explain(case, strategy, n_models):
     for i, lv in enumerate(levels):
         if i < len(reassoc):
             if in_dom(lv) and in_dom(reassoc[i]) and _ratio_differs(g, lv, reassoc[i], seed, n_models):
-                return "reassociation", {"level": i, "before": lv, "after": reassoc[i]}
+                # the listed finding is about keys that the counterfactual graph MERGED (several worlds); a re-association that
+                # changes P(outcomes | conditions) of a single-world event is a different, unlisted defect
+                nw = K.n_worlds(K.sort_event(_union(*lv)))
+                return ("reassociation" if nw >= 1 else "reassociation-in-the-factual-world"), \
+                    {"level": i, "before": lv, "after": reassoc[i]}
             if i + 1 < len(levels) and in_dom(reassoc[i]) and in_dom(levels[i + 1]) and \
                     _ratio_differs(g, reassoc[i], levels[i + 1], seed, n_models):
                 if _exchange_justified(rec, i) is False:
@@ -363,8 +367,13 @@ def _explain(case, strategy, n_models):
                     # documented test (recomputed independently) does not license is a different, unlisted defect
                     return "exchange:not-licensed-by-documented-test", \
                         {"level": i, "before": reassoc[i], "after": levels[i + 1]}
-                return _exchange_kind(g, reassoc[i], levels[i + 1], seed, n_models), \
-                    {"level": i, "before": reassoc[i], "after": levels[i + 1]}
+                kind = _exchange_kind(g, reassoc[i], levels[i + 1], seed, n_models)
+                if len(reassoc[i][1]) < 2:
+                    # both listed exchange findings are about the OTHER conditions (not re-subscripted / ignored by the
+                    # separation test); with a single condition at the exchanging level neither explanation is available
+                    # (and on factual inputs the step is proved: idcstar_sound_fragment_exchange): an unlisted defect
+                    kind = "exchange-with-a-single-condition:" + kind
+                return kind, {"level": i, "before": reassoc[i], "after": levels[i + 1]}
     calls = [c for c in rec.get("id_star", []) if "_number_recursions" in c[1]]
     if calls and isinstance(calls[-1][2], Expression):
         event, _, est = calls[-1]
